@@ -32,193 +32,6 @@ func checkC18(r *Run) {
 	semicolonRule(r, "R5")
 }
 
-func whitespaceRule(r *Run, rule string, m *lexerModel) {
-	w := r.W
-	if len(m.problems) > 0 || m.insideTk == nil {
-		r.Lost(rule, "lexer model: "+strings.Join(m.problems, "; "))
-		return
-	}
-	// the skipper: a method without results whose loop condition is a byte predicate over ch
-	// and whose loop body only reads
-	var skipper *FuncInfo
-	var loop *ast.ForStmt
-	for _, f := range m.methods {
-		sig := f.Obj.Type().(*types.Signature)
-		if sig.Results().Len() != 0 || sig.Params().Len() != 0 || f == m.readChar {
-			continue
-		}
-		inspectBody(f.Decl.Body, false, func(n ast.Node) bool {
-			if l, ok := n.(*ast.ForStmt); ok && l.Cond != nil && len(l.Body.List) == 1 {
-				if es, ok := l.Body.List[0].(*ast.ExprStmt); ok && m.isCall(es.X, m.readChar) {
-					skipper, loop = f, l
-				}
-			}
-			return true
-		})
-	}
-	if skipper == nil {
-		r.Lost(rule, "whitespace skipper of the lexer")
-		return
-	}
-	set, ok := m.byteSet(m.info, loop.Cond, m.isChField)
-	if !ok {
-		r.Bad(rule, skipper.Name(), "loop condition "+short(w.Fset, loop.Cond), w.Pos(loop.Pos()), "the whitespace condition is not a comparison chain over the current character; its set cannot be determined")
-	} else {
-		want := []byte{'\t', '\n', '\r', ' '}
-		if string(set) == string(want) {
-			r.Ok(rule, skipper.Name(), "whitespace set {tab, LF, CR, space}", w.Pos(loop.Pos()), "condition evaluated symbolically for all 256 byte values")
-		} else {
-			r.Bad(rule, skipper.Name(), fmt.Sprintf("whitespace set %q", string(set)), w.Pos(loop.Pos()),
-				fmt.Sprintf("inside a tag exactly space, tab, LF and CR are insignificant; the skipper accepts %q", string(set)))
-		}
-	}
-	// first action of the inside-tag token function
-	first := firstEffect(m.insideTk.Decl.Body.List)
-	if es, ok := first.(*ast.ExprStmt); ok && m.isCall(es.X, skipper) {
-		r.Ok(rule, m.insideTk.Name(), "skip whitespace first", w.Pos(first.Pos()), "first statement with an effect")
-	} else {
-		r.Bad(rule, m.insideTk.Name(), "first action is not the whitespace skipper", w.Pos(m.insideTk.Decl.Pos()), "whitespace must be skipped before every token inside a tag")
-	}
-}
-
-func firstEffect(list []ast.Stmt) ast.Stmt {
-	for _, s := range list {
-		if _, ok := s.(*ast.DeclStmt); ok {
-			continue
-		}
-		return s
-	}
-	return nil
-}
-
-func commentRule(r *Run, rule string, m *lexerModel) {
-	w := r.W
-	if len(m.problems) > 0 || m.insideTk == nil {
-		r.Lost(rule, "lexer model: "+strings.Join(m.problems, "; "))
-		return
-	}
-	fn := m.insideTk.Name()
-	var arm *lexArm
-	for i := range m.arms {
-		a := &m.arms[i]
-		if len(a.chars) == 1 && a.chars[0] == '#' {
-			arm = a
-		}
-	}
-	if arm == nil {
-		// accepted alternative: a loop before the switch `for ch == '#' { ...skip...; skipWhitespace }`
-		for _, st := range m.insideTk.Decl.Body.List {
-			if st == ast.Stmt(m.sw) {
-				break
-			}
-			switch s := st.(type) {
-			case *ast.ForStmt:
-				if s.Cond != nil && mentionsHash(m, s.Cond) {
-					r.Ok(rule, fn, "comment loop before the token switch", w.Pos(s.Pos()), "every comment in a run is skipped")
-					return
-				}
-			case *ast.IfStmt:
-				if mentionsHash(m, s.Cond) {
-					r.Bad(rule, fn, "single comment skipped before the token switch", w.Pos(s.Pos()),
-						"only ONE line comment is skipped per token: a second comment line right after the first reaches the token switch as an illegal character")
-					return
-				}
-			}
-		}
-		r.Bad(rule, fn, "no handling of '#'", w.Pos(m.sw.Pos()), "line comments are not skipped")
-		return
-	}
-	// the scanning loop
-	var loop *ast.ForStmt
-	for _, st := range arm.clause.Body {
-		if l, ok := st.(*ast.ForStmt); ok {
-			loop = l
-		}
-	}
-	if loop == nil {
-		r.Bad(rule, fn, "comment arm without scanning loop", w.Pos(arm.clause.Pos()), "the comment must be consumed up to the end of the line")
-	} else {
-		// stops at end of input
-		stopsAtEOF := false
-		if loop.Cond != nil {
-			if v, ok := m.evalBytePred(m.info, loop.Cond, m.isChField, 0); ok && !v {
-				stopsAtEOF = true
-			}
-		}
-		// break set
-		var brk []byte
-		okBrk := true
-		inspectBody(loop.Body, false, func(n ast.Node) bool {
-			ifs, ok := n.(*ast.IfStmt)
-			if !ok {
-				return true
-			}
-			hasBreak := false
-			for _, st := range ifs.Body.List {
-				if b, ok := st.(*ast.BranchStmt); ok && b.Tok == token.BREAK {
-					hasBreak = true
-				}
-			}
-			if hasBreak {
-				set, ok := m.byteSet(m.info, ifs.Cond, m.isChField)
-				if !ok {
-					okBrk = false
-				}
-				brk = append(brk, set...)
-			}
-			return true
-		})
-		switch {
-		case !stopsAtEOF:
-			r.Bad(rule, fn, "comment loop does not stop at end of input", w.Pos(loop.Pos()), "an unterminated comment must end at end of input")
-		case !okBrk || len(brk) == 0:
-			r.Bad(rule, fn, "comment loop has no line-end exit", w.Pos(loop.Pos()), "a # comment ends at the end of its line")
-		default:
-			good := true
-			hasLF := false
-			for _, b := range brk {
-				if b == '\n' {
-					hasLF = true
-				} else if b != '\r' {
-					good = false
-				}
-			}
-			if good && hasLF {
-				r.Ok(rule, fn, "comment ends at LF/CR or end of input", w.Pos(loop.Pos()), fmt.Sprintf("break set %q", string(brk)))
-			} else {
-				r.Bad(rule, fn, fmt.Sprintf("comment ends at %q", string(brk)), w.Pos(loop.Pos()), "a # comment must end exactly at the end of its line")
-			}
-		}
-	}
-	lexerCursorRule(r, rule, m, func(a lexArm) bool { return a.clause == arm.clause })
-	// no other arm re-lexes (that would drop a token)
-	for _, a := range m.arms {
-		if a.clause == arm.clause {
-			continue
-		}
-		for _, p := range a.paths {
-			if p.recursive {
-				r.Bad(rule, fn, a.label+" re-lexes", w.Pos(a.clause.Pos()),
-					"an arm other than the comment arm fetches another token recursively: the token it was looking at is dropped")
-				break
-			}
-		}
-	}
-}
-
-func mentionsHash(m *lexerModel, e ast.Expr) bool {
-	found := false
-	ast.Inspect(e, func(n ast.Node) bool {
-		if be, ok := n.(*ast.BinaryExpr); ok && be.Op == token.EQL && m.isChField(be.X) {
-			if v, ok := constInt(m.info, be.Y); ok && v == '#' {
-				found = true
-			}
-		}
-		return true
-	})
-	return found
-}
-
 func tagBoundaryRule(r *Run, rule string, m *lexerModel) {
 	w := r.W
 	tagCloseRuleSSA(r, rule)
